@@ -1,5 +1,5 @@
 (* Lemmas about M_Fetch (C16). *)
-From Coq Require Import Lia PeanoNat.
+From Coq Require Import Lia PeanoNat Permutation.
 From PV Require Import M_Profile M_Fetch S_Fetch.
 Open Scope nat_scope.
 
@@ -538,3 +538,7 @@ Lemma covers_rev n o : covers n o -> covers n (rev o).
 Proof. intros C j H. apply in_rev. rewrite rev_involutive. apply C. exact H. Qed.
 Lemma covers_app n o o' : covers n o -> covers n (o' ++ o).
 Proof. intros C j H. apply in_or_app. right. apply C. exact H. Qed.
+
+(* a permutation of 0..n-1 is a completion order *)
+Lemma perm_covers n o : Permutation (seq 0 n) o -> covers n o.
+Proof. intros H j Hj. eapply Permutation_in; [exact H|]. apply in_seq. lia. Qed.
